@@ -112,7 +112,8 @@ def step (n : Node) (line : String) : Node × String :=
   let f := kvs ws
   let g := fun k => field f k
   let num := fun k => (g k).toNat!
-  let fin := fun (r : Node × Class) => (r.1, r.2.show ++ " | " ++ digest r.1)
+  -- a panic ends the process: the answer is the panic itself, no state is reported
+  let fin := fun (r : Node × Class) => (r.1, if r.2 = .panic then "panic" else r.2.show ++ " | " ++ digest r.1)
   match ws.headD "" with
   | "case" => ({}, "case")
   | "init" => fin (n.initialise (strip0x (g "hash")) (num "ts") (num "height") evs)
